@@ -107,6 +107,17 @@ def wrap_method(cls, name, pre=None, post=None):
     return wrapper
 
 
+class Arguments(dict):
+    """Bound arguments of a monitored call. ``given`` holds the names the CALLER passed: the values of all other names are the defaults of
+    the signature under test (fourth audit: a monitor that needs the documented default of an argument must not read it from here - a
+    changed default would be mirrored - but from its own table, for the names that are not in ``given``)."""
+    given = frozenset()
+
+    def documented(self, name, documented_default):
+        """The caller's value if the caller passed one, else the default the documentation states (handed in by the monitor)."""
+        return self[name] if name in self.given else documented_default
+
+
 def wrap_init(cls, post):
     """Call ``post(obj, bound_arguments)`` when the outermost __init__ returns."""
     orig = cls.__dict__["__init__"]
@@ -129,11 +140,13 @@ def wrap_init(cls, post):
         if depth == 0 and not in_monitor():
             try:
                 ba = sig.bind(self, *args, **kwargs)
+                given = set(ba.arguments) - {"self"}
                 ba.apply_defaults()
-                arguments = dict(ba.arguments)
+                arguments = Arguments(ba.arguments)
                 arguments.pop("self", None)
+                arguments.given = given
             except TypeError:
-                arguments = {}
+                arguments = Arguments()
             with guard():
                 post(self, arguments)
 
